@@ -97,7 +97,7 @@ theorem comap_le_ker_effect (hAlt : B.IsAlt) (C : StabData B k) :
 
 variable [FiniteDimensional K V]
 
-/-- Dimension bound: an isotropic subspace that admits `k` logical pairs has
+/-- Dimension bound: an isotropic subspace that comes with `k` logical pairs has
     `2·dim S + 2k ≤ dim V`. -/
 theorem two_finrank_add_le (hB : B.Nondegenerate) (hAlt : B.IsAlt) (C : StabData B k) :
     2 * finrank K C.S + 2 * k ≤ finrank K V := by
